@@ -9,7 +9,7 @@ import (
 	"verif/spec"
 )
 
-var c04Behaviours = []string{"exit-now", "exit-200", "exit-600", "exit-1000", "busy-exit-1200", "nolisten", "never", "busy", "frozen", "crashed", "failed-handshake", "start-timeout-partial-line"}
+var c04Behaviours = []string{"exit-now", "exit-200", "exit-600", "exit-1000", "busy-exit-1200", "nolisten", "never", "never-chatty", "busy", "frozen", "crashed", "failed-handshake", "start-timeout-partial-line"}
 
 func c04Gen(r *rand.Rand, tier string) []spec.Case {
 	var out []spec.Case
@@ -157,7 +157,7 @@ func c04Judge(c spec.Case, evs []spec.Event, d *Death) CaseResult {
 				res.Counters["graceful_with_marker"]++
 			}
 		}
-		if (b == "never" || b == "frozen") && cl.Marker {
+		if (b == "never" || b == "never-chatty" || b == "frozen") && cl.Marker {
 			viol("marker-unexpected", "a plugin that never finishes its cleanup has a cleanup marker (harness error?)")
 		}
 		nominal := int64(4000)
@@ -181,7 +181,7 @@ func init() {
 		ID: "C04", Level: "exploration", Race: true, TestName: "TestC04",
 		Gen: c04Gen, Batch: 16, Children: 6, PerCase: 6 * time.Second, Base: 240 * time.Second,
 		Judge: c04Judge, Finish: func(r *Run) { r.raceSummary("C04") },
-		Rule: "cases = plugin shutdown behaviour (exits at once / 200, 600, 1000 ms after the shutdown request / 1200 ms after it with a call that ignores cancellation in flight / never / alive with nothing listening at the announced address (Client() fails first) / busy handler / SIGSTOPped, state T awaited / already SIGKILLed / failed handshake) x protocol (net/rpc, gRPC, gRPC+mux) x launch (Cmd, custom runner around a real process, the same runner with a Kill that honours its context, reattach) x call pattern (one Kill, three sequential, four concurrent, CleanupClients over 1/3/6 managed clients in mixed states, own host process each; in half of those rounds some clients had Kill called on them before their Start). Real vplugin subprocesses; the plugin writes a marker file after its cleanup, the monitor reads /proc/<pid>/stat, Exited() and the marker after Kill returns. Quick runs every (behaviour, protocol) cell once plus a seeded third of the remaining product; frozen net/rpc and mux (45 s keep-alive bound) only in thorough. Class = behaviour|protocol|launch|pattern",
+		Rule: "cases = plugin shutdown behaviour (exits at once / 200, 600, 1000 ms after the shutdown request / 1200 ms after it with a call that ignores cancellation in flight / never / never, while logging a line to stderr every 250 ms / alive with nothing listening at the announced address (Client() fails first) / busy handler / SIGSTOPped, state T awaited / already SIGKILLed / failed handshake) x protocol (net/rpc, gRPC, gRPC+mux) x launch (Cmd, custom runner around a real process, the same runner with a Kill that honours its context, reattach) x call pattern (one Kill, three sequential, four concurrent, CleanupClients over 1/3/6 managed clients in mixed states, own host process each; in half of those rounds some clients had Kill called on them before their Start). Real vplugin subprocesses; the plugin writes a marker file after its cleanup, the monitor reads /proc/<pid>/stat, Exited() and the marker after Kill returns. Quick runs every (behaviour, protocol) cell once plus a seeded third of the remaining product; frozen net/rpc and mux (45 s keep-alive bound) only in thorough. Class = behaviour|protocol|launch|pattern",
 		Assumptions: []string{
 			"delays inside the grace period are 200/600/1000 ms; the ambiguous band around 2 s is never generated",
 			"the 'allowed to finish its cleanup' clause is judged for single, sequential and CleanupClients patterns; with concurrent Kill calls the statement only promises no panic and no hang",
